@@ -7,6 +7,26 @@ VERIF = os.path.dirname(os.path.dirname(os.path.abspath(__file__)))
 
 # id -> (technique, level text, level note, design_ref)
 CLAIMED = {
+    "C01": ("bounded-exhaustive enumeration of the header state x value spaces + property-based testing (rapid) over arbitrary packet contents, oracle = ISO 13818-1 bit positions and 'XOR outside the field mask is zero'",
+            "All 2^24 states of header bytes 1-3 are enumerated for every getter of both accessor styles and for packet validation; every setter is enumerated over all states of the byte(s) it touches x all in-range values (PID: 65536 states x 21 values quick / all 8192 thorough) with the whole 188-byte packet compared; equality over all 1504 single-bit flips; FromBytes over all lengths 0..400. The rest of the packet contents is sampled by rapid. Within the enumerated header spaces the check is complete; for the remaining 1480 bits it relies on the setters touching only header bytes (any write elsewhere is caught by the whole-packet comparison on sampled contents).",
+            "Trusted: the harness' transcription of the ISO header layout; only in-range setter arguments are used.",
+            "DESIGN.md section 4 C01"),
+    "C02": ("property-based testing (rapid) over reference-model-built well-formed packets + enumeration of all (af_len, payload length) pairs; oracle = byte-exact reference re-encoding",
+            "Generated well-formed packets (all AFC modes, af_len 0..183, all fitting optional-field subsets) x payload lengths 0..200: the header/payload partition, copy independence, the returned count, and the complete 188 bytes after SetPayload are compared with the reference model's encoding; all (af_len, n) pairs are enumerated for three adaptation-field contents. Creation helpers are checked for the requested sync/PID/CC/flags/payload.",
+            "Trusted: ref.Packet (ISO 13818-1 2.4.3 serialiser/parser written for the harness). PUSI of CreateTestPacket only asserted with payload; see DESIGN S-notes.",
+            "DESIGN.md section 4 C02"),
+    "C03": ("model-based (stateful) property-based testing: generated setter histories applied to the library and to a reference model, compared byte-for-byte and getter-by-getter after every step; bounded-exhaustive toggle histories",
+            "Histories of 1..40 adaptation-field setter calls (generator follows the reference model so that lengths hit exactly-fits / one-too-many) from generated well-formed packets; after every call all 188 bytes equal the reference serialisation, every getter of both APIs equals the model, refused calls leave the packet unchanged and fitting calls succeed. All toggle histories of length <= 3 from 8 af_len x 32 initial subsets are enumerated.",
+            "Trusted: ref.Packet. One known finding (method getters of private data/extension return length-prefixed bytes) is tolerated by key and reported as KNOWN-FINDING.",
+            "DESIGN.md section 4 C03"),
+    "C04": ("property-based testing (rapid) with boundary-bit value generators + enumeration of single/double-bit values; oracle = explicit ISO bit-position tables, round trip, metamorphic bit flips, differential between the two PTS decoders",
+            "PCR base/ext and PTS/DTS values drawn from the boundary-bit set and uniformly; written bytes compared with the ISO layout (reserved/marker bits 1), canary bytes after the field, round trip, invariance of decoding under every subset of non-value bits, agreement of gots.ExtractTime, pes.ExtractTime and the reference on arbitrary bytes, end to end through adaptation-field PCR/OPCR and PES headers.",
+            "Trusted: ref.EncodePCR/EncodePTS/DecodePCR/DecodePTS (bit tables written from ISO 13818-1). The 4-bit PTS prefix is not asserted.",
+            "DESIGN.md section 4 C04"),
+    "C13": ("differential testing against an independent CRC-32/MPEG-2 reference: exhaustive for lengths 0-2 and single-bit strings, property-based (rapid) otherwise",
+            "ComputeCRC is compared with a reference written from the definition (bitwise and table-driven twins, catalogue check value) on all strings of length <= 2, all single-bit strings up to 96 bytes + sampled lengths to 1024 (thorough: all to 1024), and random strings up to 4096 bytes; the appended-CRC residue is checked with both implementations. Residues of emitted sections are asserted in the C09/C14 oracles.",
+            "Trusted: the reference CRC (self-checked at start-up against 0x0376E6E7 for '123456789').",
+            "DESIGN.md section 4 C13"),
     "C15": ("property-based testing (rapid) against uint64 reference arithmetic + complete enumeration of the threshold windows; native fuzz over the same generator in the thorough tier",
             "Generated-input search: every clause of the statement is evaluated on (p,q,d) triples with heavy bias to the four thresholds and the wrap, and every pair from the +-8 (thorough +-40) tick windows around the thresholds is enumerated. A threshold off-by-one, a wrong mask in Add or a swapped DurationFrom case is hit within the first few hundred cases; absence is not proven for the full 2^66 pair space.",
             "Trusted: the harness' uint64 reference arithmetic written from the statement; Go arithmetic. Assumes 33-bit inputs as the statement does.",
